@@ -20,7 +20,7 @@ func C01(r *core.Report) {
 		"R2 section length definition - the CAR reader returns payload length + the width of the length varint, where the width is the number of bytes actually consumed by the varint decode (a byte counter wrapped around the same reader), and Next* forward that value unchanged; " +
 		"R3 value codec agreement for the four typed indexes: the value size given to the builder equals the sum of the widths of the pieces concatenated by Put, which equals the length accepted and the split points used by the reader, and Put guards the ranges of the packed integers; " +
 		"R4 goroutines launched by the same errgroup do not assign the same captured variable (a failed Seal must not be overwritten by a sibling's nil); R5 every index writer created by `index all` receives inserts in the read loop and its Seal/WriteTo error reaches the function's error return; no error of those writers is discarded. " +
-		"Not decided: hashing/offset arithmetic for concrete CARs, bucket boundaries, the server-side fetch (C03/C10)."
+		"R7 in the packages that write index files (blocktimeindex, indexes, bucketteer) every narrowing conversion of a non-constant integer is dominated by a range guard or listed with its invariant (tables/c01_narrow_exempt.json): a block time, offset or count that does not fit makes generation fail instead of being stored truncated. Not decided: hashing/offset arithmetic for concrete CARs, bucket boundaries, the server-side fetch (C03/C10)."
 	r.Assumptions = []string{"a CIDv1 sha2-256 dag-cbor CID is 36 bytes (table fact)", "binary.ReadUvarint reads through the io.ByteReader it is given"}
 	c01Offsets(r)
 	c01SectionLength(r)
@@ -28,6 +28,7 @@ func C01(r *core.Report) {
 	c01CodecRoundTrip(r)
 	c01ScratchDirsUnique(r)
 	r.Floor("C01.R6", 3)
+	c01WriterNarrowing(r)
 	c01SharedWrites(r)
 	c01WriterLifecycle(r)
 	r.Floor("C01.R1", 12)
@@ -35,6 +36,7 @@ func C01(r *core.Report) {
 	r.Floor("C01.R3", 12)
 	r.Floor("C01.R4", 1)
 	r.Floor("C01.R5", 6)
+	r.Floor("C01.R7", 3)
 }
 
 func c01Offsets(r *core.Report) {
@@ -734,4 +736,45 @@ func c01ScratchDirsUnique(r *core.Report) {
 	if n == 0 {
 		r.Undecided(rule, "main#NewBuilder_", "", "no NewBuilder_* function handing a directory to an index writer found")
 	}
+}
+
+// c01WriterNarrowing (C01.R7): in the packages that write the index files every conversion of a non-constant integer to a
+// narrower unsigned type is dominated by a guard that bounds the operand to the target range, or is listed with its
+// invariant in tables/c01_narrow_exempt.json: a value that does not fit must make index generation fail, never be
+// stored truncated (a block time beyond 32 bits, an offset beyond 48 bits, a count beyond 32 bits).
+func c01WriterNarrowing(r *core.Report) {
+	const rule = "C01.R7"
+	p := r.Prog
+	table := loadExemptTable(p, "c01_narrow_exempt.json")
+	used := map[string]bool{}
+	n := 0
+	for _, pk := range []string{"blocktimeindex", "indexes", "bucketteer"} {
+		for _, top := range p.FuncsInPkg(pk) {
+			for _, f := range top.AllWithLits() {
+				if strings.HasSuffix(p.FileOf(f.Pos()), "_test.go") {
+					continue
+				}
+				cnt := map[string]int{}
+				for _, s := range narrowingSites(p, f) {
+					key := fmt.Sprintf("%s#narrow:%s", f.Key, core.KeyStr(f, s.Call))
+					cnt[key]++
+					if cnt[key] > 1 {
+						key = fmt.Sprintf("%s#%d", key, cnt[key])
+					}
+					n++
+					if s.Bounded {
+						r.OK(rule, key, pos(r, s.Call), fmt.Sprintf("the operand is bounded to %d bits by a dominating guard", s.DstBits))
+						continue
+					}
+					if tk, listed := exemptKey(table, key); listed {
+						used[tk] = true
+						r.OK(rule, key, pos(r, s.Call), "exempt (tables/c01_narrow_exempt.json): "+table[tk])
+						continue
+					}
+					r.Violation(rule, key, pos(r, s.Call), fmt.Sprintf("%s narrows a %d-bit value to %d bits without a dominating guard: a larger value is stored truncated and index generation reports success while the lookup answers a different value", core.ExprStr(s.Call), s.SrcBits, s.DstBits))
+				}
+			}
+		}
+	}
+	r.Extra["C01_narrowing_sites"] = n
 }
